@@ -76,10 +76,10 @@ var properties = map[string]*Property{
 		ID:    "C06",
 		Title: "Function calls and closures behave as in Go regardless of frame recycling",
 		Units: []Unit{
-			{Kind: "funcs", Pkg: "fast", Funcs: []string{"(*Env).freeEnv", "(*Env).MarkUsedByClosure", "newEnv", "NewEnv", "(*Env).FreeEnv", "(*Env).freeEnv4Func", "(*Var).Address", "(*Comp).call0ret0"}},
+			{Kind: "funcs", Pkg: "fast", Funcs: []string{"(*Env).freeEnv", "(*Env).MarkUsedByClosure", "newEnv", "NewEnv", "(*Env).FreeEnv", "(*Env).freeEnv4Func", "(*Var).Address", "(*Comp).call0ret0", "(*Comp).call0ret1"}},
 		},
 		NotCovered: []string{
-			"first sentence of the property (results of calls equal compiled Go): of the call*.go / func*ret*.go specialisations only call0ret0 (a call f() of a function variable) is under contract",
+			"first sentence of the property (results of calls equal compiled Go): of the call*.go / func*ret*.go specialisations only call0ret0 and call0ret1 (a call f() of a function variable without arguments, with zero or one result of a basic kind; callees that are not variables, or of non-identical named result types, are counted uncovered) are under contract",
 			"that every function-creating closure marks its frame / frees it exactly once (typestate over func0ret0..func2ret0)",
 		},
 	},
